@@ -225,7 +225,35 @@ def check_velocity(case):
     # position continuity: the three states lie on one smooth curve
     if float(np.linalg.norm(acc)) * h > 0.05 * float(np.linalg.norm(fd)):
         raise Violation(f"{name}-jump", f"{name} at {dt}: position not smooth over +-{h} s")
-    return dict(nt=True, cls=date_classes(case) + [name, f"eop:{eop_of(case['shard'])}"], ratio=err / tol)
+    cls = []
+    tab = case.get("table")
+    hi_ = (MJD_REAL_END if eop_of(case["shard"]) == "real" else MJD_2020_END) - 8
+    if tab and not (MJD_2000 + 25 < case["mjd"] - 20 and case["mjd"] + 20 < hi_):
+        tab = None                 # (the tabulation and its +-5 d differencing must stay inside the tables)
+    if tab:
+        # the same body tabulated (forward or backward, step of several days): every tabulated state - velocity
+        # included - is the state the body has at that date when asked directly
+        orb = body.propagate(dt)
+        step = timedelta(days=tab["step_days"])
+        kw = dict(start=dt, stop=timedelta(days=tab["dir"] * tab["step_days"] * tab["n"]),
+                  step=step if (tab["dir"] > 0 or not tab["neg_step"]) else -step)
+        pts = list({"iter": orb.iter, "ephemeris": orb.ephemeris, "ephem": lambda **k: iter(orb.ephem(**k))}[tab["route"]](**kw))
+        # (the bodies' states are dated in UT1 / TDB: whether start + n steps still is <= stop costs 1-2 us - not decided
+        #  by any listed property; one date short is accepted)
+        if len(pts) not in (tab["n"], tab["n"] + 1):
+            raise Violation(f"{name}-table-count", f"{name} tabulated from {dt} over {tab['dir'] * tab['step_days'] * tab['n']} d "
+                            f"every {tab['step_days']} d: {len(pts)} states")
+        for p_ in pts:
+            direct = np.asarray(body.propagate(p_.date).base, float)
+            got_ = np.asarray(p_.base, float)
+            dp_ = float(np.linalg.norm(got_[:3] - direct[:3])) / float(np.linalg.norm(direct[:3]))
+            dv_ = float(np.linalg.norm(got_[3:] - direct[3:])) / float(np.linalg.norm(direct[3:]))
+            if not (dp_ <= 1e-9 and dv_ <= 1e-4):   # (the velocity is a difference over +-1 d / +-5 d of dates that carry 1-2 us of UT1 / TDB arithmetic)
+                raise Violation(f"{name}-table-state", f"{name} tabulated by {tab['route']} ({'forward' if tab['dir'] > 0 else 'backward'}, "
+                                f"every {tab['step_days']} d): the state dated {p_.date} is {dp_:.3g} (position) / {dv_:.3g} "
+                                f"(velocity) relative away from the body's state at that date")
+        cls.append(f"table:{'forward' if tab['dir'] > 0 else 'backward'}")
+    return dict(nt=True, cls=date_classes(case) + [name, f"eop:{eop_of(case['shard'])}"] + cls, ratio=err / tol)
 
 
 @st.composite
@@ -234,6 +262,10 @@ def velocity_case(draw, shard, tier):
     c["body"] = "sun" if (shard // 8) % 2 == 0 else "moon"
     if draw(st.integers(0, 3)) == 0:
         c["body"] = "moon" if c["body"] == "sun" else "sun"
+    if draw(st.integers(0, 2)) == 0:
+        c["table"] = dict(dir=draw(st.sampled_from([1, -1, -1])), n=1,
+                          step_days=draw(st.sampled_from([2, 3, 5, 8] if c["body"] == "moon" else [9, 12, 15, 3])),
+                          neg_step=draw(st.booleans()), route=draw(st.sampled_from(["iter", "iter", "ephemeris", "ephem"])))
     return c
 
 
